@@ -14,7 +14,7 @@ from .avm.engine import Engine, HarnessError, Outcome
 from .avm.sym import Bounds, SymAVM
 from .avm.values import Bs, U
 from .common import from_json, to_json
-from .teal.parse import TealSyntaxError, check_program, parse
+from .teal.parse import TealSyntaxError, blocking_complaints, check_program, parse
 from .arc4 import model as M, types as T
 from .arc4.abijob import tt
 from .router import selector, reject_is_failure, PYTEAL_ERRORS
@@ -190,7 +190,7 @@ def method_job(job: Dict[str, Any]) -> Dict[str, Any]:
     except TealSyntaxError as e:
         out["complaints"] = ["unparsable: %s" % e]
         return out
-    out["complaints"] = check_program(prog, "A")
+    out["complaints"] = blocking_complaints(prog, "A")
     if out["complaints"]:
         out["teal"] = ap
         return out
